@@ -18,7 +18,7 @@ use std::sync::{Arc, Mutex};
 use std::time::{Duration, Instant};
 
 pub const LEVEL: &str = "exploration";
-pub const RULE: &str = "case = scenario on a real connected client (Connector::connect over a socket pair and TLS) whose receive thread is the binary's launch_rdp_thread: 1..12 fast-path bitmap PDUs tagged with serial numbers; a packing of PDUs into TLS records (one per record, several per record, one PDU split over 2-3 records) and of records into socket writes (one write per record, all coalesced, 1..n-byte pieces) with seeded pauses (0 / 100 us / 5 ms); an end mode (disconnect-provider ultimatum, TLS close_notify then close, abrupt close, undecodable PDU then close, connection reset (RST, on the loopback-TCP transport), none) placed before any PDU, between PDUs or inside a PDU; 0..2 concurrent writer threads doing lock + try_write. Oracle: with the server silent and open every PDU already sent arrives on the bitmap channel in serial order within 5 s (a miss is confirmed by a 'poke' PDU: if the missing events then arrive the thread was waiting for further server traffic); after the end event the thread's JoinHandle is finished within 5 s and the shared client is released (a live thread is classified as spinning or blocked by process CPU time); everything sent before the end was forwarded in order. The matrix section covers every end mode at every protocol point and every packing (one / several / split PDUs per record) on a plain-TLS and on a CredSSP (PROTOCOL_HYBRID) session, plus scenarios that start with 6 s (thorough: 2, 6, 11, 31, 61 s) of complete server silence; one generated scenario in three runs on a CredSSP session. Scenarios run one at a time. Non-trivial = packing other than one-PDU-per-record-per-write, or an end mode other than none; distinct by hash of the scenario.";
+pub const RULE: &str = "case = scenario on a real connected client (Connector::connect over a socket pair and TLS) whose receive thread is the binary's launch_rdp_thread: 1..12 fast-path bitmap PDUs tagged with serial numbers; a packing of PDUs into TLS records (one per record, several per record, one PDU split over 2-3 records) and of records into socket writes (one write per record, all coalesced, 1..n-byte pieces) with seeded pauses (0 / 100 us / 5 ms); an end mode (disconnect-provider ultimatum, TLS close_notify then close, abrupt close, undecodable PDU then close, connection reset (RST, on the loopback-TCP transport), none) placed before any PDU, between PDUs or inside a PDU; 0..2 concurrent writer threads doing lock + try_write. Oracle: with the server silent and open every PDU already sent arrives on the bitmap channel in serial order within 5 s (a miss is confirmed by a 'poke' PDU: if the missing events then arrive the thread was waiting for further server traffic); after the end event the thread's JoinHandle is finished within 5 s and the shared client is released (a live thread is classified as spinning or blocked by process CPU time); everything sent before the end was forwarded in order. Scenarios may start with 1-2 bitmap PDUs in the TLS record of the font-map (decrypted before the receive thread exists: they must be delivered with the server silent) and may use PDUs larger than one TLS record (64x64 raw rectangles), also cut in half by the end event. The matrix section covers every end mode at every protocol point and every packing (one / several / split PDUs per record) on a plain-TLS and on a CredSSP (PROTOCOL_HYBRID) session, plus scenarios that start with 6 s (thorough: 2, 6, 11, 31, 61 s) of complete server silence; one generated scenario in three runs on a CredSSP session. Scenarios run one at a time. Non-trivial = packing other than one-PDU-per-record-per-write, or an end mode other than none; distinct by hash of the scenario.";
 
 const T_DELIVER: Duration = Duration::from_secs(5);
 const T_STOP: Duration = Duration::from_secs(5);
@@ -76,6 +76,13 @@ pub struct Case {
     /// the transport is a TCP connection over the loopback interface instead of a unix socket pair
     #[serde(default)]
     pub tcp: bool,
+    /// number of bitmap PDUs that travel in the same TLS record as the last PDU of the activation (they sit decrypted in
+    /// the TLS buffer before the receive thread exists)
+    #[serde(default)]
+    pub early: u8,
+    /// the PDUs carry 64x64 raw 32 bpp rectangles: bodies larger than one TLS record (16 KiB)
+    #[serde(default)]
+    pub big: bool,
 }
 
 /// the transport under the client and under the server's TLS: a unix socket pair or loopback TCP
@@ -195,6 +202,14 @@ fn pause(idx: u8) {
     }
 }
 
+fn pdu_of(serial: u16, big: bool) -> Vec<u8> {
+    if big {
+        wire::fast_path_pdu(&[FpUpdate::Bitmap(vec![Rect { left: serial, top: 0, right: serial, bottom: 63, width: 64, height: 64, bpp: 32, flags: 0, cd_scan_width: 0, cd_uncompressed: 0, data: vec![serial as u8; 64 * 64 * 4] }])], 0, true).bytes
+    } else {
+        serial_pdu(serial)
+    }
+}
+
 fn serial_pdu(serial: u16) -> Vec<u8> {
     // the serial number travels in destLeft; a 2x2 raw 32 bpp rectangle
     wire::fast_path_pdu(&[FpUpdate::Bitmap(vec![Rect { left: serial, top: 0, right: serial, bottom: 1, width: 2, height: 2, bpp: 32, flags: 0, cd_scan_width: 0, cd_uncompressed: 0, data: vec![serial as u8; 16] }])], 0, false).bytes
@@ -208,7 +223,7 @@ struct Session {
     handle: Option<std::thread::JoinHandle<()>>,
 }
 
-fn setup(nla: bool, tcp: bool) -> Result<Session, String> {
+fn setup(nla: bool, tcp: bool, early: u8) -> Result<Session, String> {
     let (a, b) = Sock::pair(tcp).map_err(|e| e.to_string())?;
     a.set_timeouts(Duration::from_secs(20));
     b.set_timeouts(Duration::from_secs(20));
@@ -245,7 +260,14 @@ fn setup(nla: bool, tcp: bool) -> Result<Session, String> {
             return Err("client closed during setup".into());
         }
         for m in server.feed(&buf[..n]) {
-            tls.write_all(&m.bytes).map_err(|e| e.to_string())?;
+            let mut bytes = m.bytes.clone();
+            if m.name == "font-map" {
+                // bitmap PDUs in the same TLS record as the last PDU of the activation
+                for k in 0..early {
+                    bytes.extend_from_slice(&serial_pdu(k as u16));
+                }
+            }
+            tls.write_all(&bytes).map_err(|e| e.to_string())?;
         }
     }
     let client = helper.join().map_err(|_| "client helper thread panicked".to_string())??;
@@ -370,7 +392,13 @@ pub fn run(c: &Case) -> Outcome {
     if c.tcp {
         out.label("transport:tcp");
     }
-    let mut s = match setup(c.nla, c.tcp) {
+    if c.early > 0 {
+        out.label("early-pdus");
+    }
+    if c.big {
+        out.label("big-pdus");
+    }
+    let mut s = match setup(c.nla, c.tcp, c.early.min(3)) {
         Ok(s) => s,
         Err(e) => {
             out.fail("inconclusive:setup", format!("session setup failed: {}", e));
@@ -400,10 +428,38 @@ pub fn run(c: &Case) -> Outcome {
     }
     let total = c.pdus.max(1) as usize;
     let before_end = if c.end == EndMode::None { total } else { (c.end_after as usize).min(total) };
-    let pdus: Vec<Vec<u8>> = (0..before_end).map(|i| serial_pdu(i as u16)).collect();
+    let early = c.early.min(3) as usize;
+    let pdus: Vec<Vec<u8>> = (0..before_end).map(|i| pdu_of((early + i) as u16, c.big)).collect();
     let records = pack(&pdus, c.records);
     let mut got: Vec<u16> = Vec::new();
     let mut io_err = None;
+    if early > 0 {
+        // nothing else has been sent: the PDUs that arrived with the font-map must come out on their own
+        collect(&s.rx, &mut got, early, T_DELIVER);
+        let want_early: Vec<u16> = (0..early as u16).collect();
+        if got != want_early {
+            let alive = s.handle.as_ref().map(|h| !h.is_finished()).unwrap_or(false);
+            out.fail("stall:pdu-buffered-before-thread-start", format!("{} bitmap PDUs were in the TLS record of the font-map (decrypted before the receive thread started); {:?} arrived within {:?} with the server silent (thread alive: {})", early, got, T_DELIVER, alive));
+            let stop = Arc::new(AtomicBool::new(true));
+            s.sync.store(false, Ordering::Relaxed);
+            let _ = s.tls.get_mut().sock.shutdown(std::net::Shutdown::Both);
+            let _ = stop;
+            for w in writers {
+                stop_writers.store(true, Ordering::Relaxed);
+                let _ = w.join();
+            }
+            if let Some(h) = s.handle.take() {
+                let t0 = Instant::now();
+                while !h.is_finished() && t0.elapsed() < Duration::from_secs(3) {
+                    std::thread::sleep(Duration::from_millis(5));
+                }
+                if h.is_finished() {
+                    let _ = h.join();
+                }
+            }
+            return out;
+        }
+    }
     if c.silence_s > 0 {
         // the server says nothing at all for a while: a wait call with a timeout must survive its expiry
         std::thread::sleep(Duration::from_millis(c.silence_s as u64 * 1000 + 300));
@@ -413,8 +469,8 @@ pub fn run(c: &Case) -> Outcome {
     }
     d!("sent {} records", records.len());
     // (i) keeps up: the server is now silent and open
-    collect(&s.rx, &mut got, before_end, T_DELIVER);
-    let want: Vec<u16> = (0..before_end as u16).collect();
+    collect(&s.rx, &mut got, early + before_end, T_DELIVER);
+    let want: Vec<u16> = (0..(early + before_end) as u16).collect();
     d!("collected {:?}", got);
     let finish = |s: &mut Session, stop_writers: &Arc<AtomicBool>, writers: Vec<std::thread::JoinHandle<()>>| {
         // release whatever is still running so that the next scenario starts clean: first the receive thread (it may
@@ -456,7 +512,7 @@ pub fn run(c: &Case) -> Outcome {
             let _ = s.tls.write_all(&poke);
             d!("poked");
             let mut after: Vec<u16> = got.clone();
-            collect(&s.rx, &mut after, before_end + 1, Duration::from_secs(2));
+            collect(&s.rx, &mut after, early + before_end + 1, Duration::from_secs(2));
             let mut want_after = want.clone();
             want_after.push(9999);
             let confirmed = after == want_after;
@@ -491,7 +547,7 @@ pub fn run(c: &Case) -> Outcome {
         pause(c.end_delay);
         if c.end_inside {
             // half a PDU, then the end
-            let p = serial_pdu(7777);
+            let p = pdu_of(7777, c.big);
             let _ = s.tls.write_all(&p[..p.len() / 2]);
         }
         let end_io = match c.end {
@@ -580,6 +636,8 @@ pub fn decode(s: &mut Src) -> Case {
     // decided from the first bytes: late choices are starved by short choice strings
     let nla = s.chance(80);
     let tcp = s.chance(100);
+    let early = if s.chance(48) { 1 + s.below(2) as u8 } else { 0 };
+    let big = s.chance(40);
     let silence_s = if s.chance(6) { 1 + s.below(2) as u8 } else { 0 };
     let records = match s.below(4) {
         0 => RecordPacking::OnePerRecord,
@@ -594,7 +652,7 @@ pub fn decode(s: &mut Src) -> Case {
     };
     let end = s.pick(&[EndMode::None, EndMode::DisconnectUltimatum, EndMode::CloseNotify, EndMode::AbruptClose, EndMode::UndecodableThenClose, EndMode::DisconnectUltimatum, EndMode::Reset]);
     let pdus = 1 + s.below(12) as u8;
-    Case { pdus, records, socket, pause: s.below(3) as u8, end, end_after: s.below(pdus as usize + 1) as u8, end_inside: s.chance(64), writers: s.below(3) as u8, end_delay: s.below(3) as u8, nla, silence_s, tcp }
+    Case { pdus, records, socket, pause: s.below(3) as u8, end, end_after: s.below(pdus as usize + 1) as u8, end_inside: s.chance(64), writers: s.below(3) as u8, end_delay: s.below(3) as u8, nla, silence_s, tcp, early, big }
 }
 
 fn matrix(thorough: bool) -> Vec<Case> {
@@ -602,18 +660,18 @@ fn matrix(thorough: bool) -> Vec<Case> {
     let mut v = Vec::new();
     for end in [EndMode::DisconnectUltimatum, EndMode::CloseNotify, EndMode::AbruptClose, EndMode::UndecodableThenClose] {
         for (end_after, inside) in [(0u8, false), (2, false), (2, true), (4, false)] {
-            v.push(Case { pdus: 4, records: RecordPacking::OnePerRecord, socket: SocketPacking::PerRecord, pause: 0, end, end_after, end_inside: inside, writers: 0, end_delay: 0, nla: false, silence_s: 0, tcp: false });
+            v.push(Case { pdus: 4, records: RecordPacking::OnePerRecord, socket: SocketPacking::PerRecord, pause: 0, end, end_after, end_inside: inside, writers: 0, end_delay: 0, nla: false, silence_s: 0, tcp: false, early: 0, big: false });
         }
     }
     for records in [RecordPacking::OnePerRecord, RecordPacking::SplitAcrossRecords(2), RecordPacking::SplitAcrossRecords(3)] {
         for socket in [SocketPacking::PerRecord, SocketPacking::Coalesced, SocketPacking::Pieces(1), SocketPacking::Pieces(29)] {
-            v.push(Case { pdus: 5, records, socket, pause: 0, end: EndMode::None, end_after: 0, end_inside: false, writers: 1, end_delay: 0, nla: false, silence_s: 0, tcp: false });
+            v.push(Case { pdus: 5, records, socket, pause: 0, end: EndMode::None, end_after: 0, end_inside: false, writers: 1, end_delay: 0, nla: false, silence_s: 0, tcp: false, early: 0, big: false });
         }
     }
     // several PDUs per TLS record, on a plain-TLS and on a CredSSP session
     for nla in [false, true] {
         for records in [RecordPacking::ManyPerRecord(2), RecordPacking::ManyPerRecord(3), RecordPacking::ManyPerRecord(5), RecordPacking::OnePerRecord, RecordPacking::SplitAcrossRecords(2)] {
-            v.push(Case { pdus: 6, records, socket: SocketPacking::PerRecord, pause: 0, end: if nla { EndMode::DisconnectUltimatum } else { EndMode::None }, end_after: 6, end_inside: false, writers: 0, end_delay: 0, nla, silence_s: 0, tcp: false });
+            v.push(Case { pdus: 6, records, socket: SocketPacking::PerRecord, pause: 0, end: if nla { EndMode::DisconnectUltimatum } else { EndMode::None }, end_after: 6, end_inside: false, writers: 0, end_delay: 0, nla, silence_s: 0, tcp: false, early: 0, big: false });
         }
     }
     // loopback TCP: every end mode including a connection reset, at every protocol point; the packings once
@@ -622,17 +680,33 @@ fn matrix(thorough: bool) -> Vec<Case> {
             if end != EndMode::Reset && (end_after, inside) != (2, false) {
                 continue;
             }
-            v.push(Case { pdus: 4, records: RecordPacking::OnePerRecord, socket: SocketPacking::PerRecord, pause: 0, end, end_after, end_inside: inside, writers: (end_after % 2), end_delay: 0, nla: false, silence_s: 0, tcp: true });
+            v.push(Case { pdus: 4, records: RecordPacking::OnePerRecord, socket: SocketPacking::PerRecord, pause: 0, end, end_after, end_inside: inside, writers: (end_after % 2), end_delay: 0, nla: false, silence_s: 0, tcp: true, early: 0, big: false });
         }
     }
     for (records, socket) in [(RecordPacking::ManyPerRecord(3), SocketPacking::PerRecord), (RecordPacking::SplitAcrossRecords(2), SocketPacking::Pieces(7)), (RecordPacking::OnePerRecord, SocketPacking::Coalesced)] {
-        v.push(Case { pdus: 6, records, socket, pause: 0, end: EndMode::Reset, end_after: 6, end_inside: false, writers: 0, end_delay: 1, nla: true, silence_s: 0, tcp: true });
+        v.push(Case { pdus: 6, records, socket, pause: 0, end: EndMode::Reset, end_after: 6, end_inside: false, writers: 0, end_delay: 1, nla: true, silence_s: 0, tcp: true, early: 0, big: false });
+    }
+    // PDUs that arrive in the TLS record of the font-map (before the receive thread exists), then silence or more traffic
+    for early in [1u8, 2] {
+        for (pdus, end) in [(0u8, EndMode::None), (3, EndMode::DisconnectUltimatum)] {
+            for nla in [false, true] {
+                v.push(Case { pdus, records: RecordPacking::OnePerRecord, socket: SocketPacking::PerRecord, pause: 0, end, end_after: pdus, end_inside: false, writers: 0, end_delay: 0, nla, silence_s: 0, tcp: false, early, big: false });
+            }
+        }
+    }
+    // PDUs larger than one TLS record, complete and cut by each end mode
+    for end in [EndMode::None, EndMode::CloseNotify, EndMode::AbruptClose, EndMode::DisconnectUltimatum, EndMode::UndecodableThenClose] {
+        for inside in [false, true] {
+            for tcp in [false, true] {
+                v.push(Case { pdus: 3, records: RecordPacking::OnePerRecord, socket: if tcp { SocketPacking::Pieces(1000) } else { SocketPacking::PerRecord }, pause: 0, end, end_after: 2, end_inside: inside && end != EndMode::None, writers: 0, end_delay: 0, nla: false, silence_s: 0, tcp, early: 0, big: true });
+            }
+        }
     }
     // long server silence first (longer than common wait timeouts), then traffic and an end event
     let silences: &[u8] = if thorough { &[2, 6, 11, 31, 61] } else { &[6] };
     for &silence_s in silences {
-        v.push(Case { pdus: 3, records: RecordPacking::OnePerRecord, socket: SocketPacking::PerRecord, pause: 0, end: EndMode::DisconnectUltimatum, end_after: 3, end_inside: false, writers: 0, end_delay: 0, nla: false, silence_s, tcp: false });
-        v.push(Case { pdus: 2, records: RecordPacking::ManyPerRecord(2), socket: SocketPacking::PerRecord, pause: 0, end: EndMode::AbruptClose, end_after: 0, end_inside: false, writers: 1, end_delay: 0, nla: false, silence_s, tcp: false });
+        v.push(Case { pdus: 3, records: RecordPacking::OnePerRecord, socket: SocketPacking::PerRecord, pause: 0, end: EndMode::DisconnectUltimatum, end_after: 3, end_inside: false, writers: 0, end_delay: 0, nla: false, silence_s, tcp: false, early: 0, big: false });
+        v.push(Case { pdus: 2, records: RecordPacking::ManyPerRecord(2), socket: SocketPacking::PerRecord, pause: 0, end: EndMode::AbruptClose, end_after: 0, end_inside: false, writers: 1, end_delay: 0, nla: false, silence_s, tcp: false, early: 0, big: false });
     }
     v
 }
@@ -648,4 +722,6 @@ pub fn check(rep: &Report) {
     rep.require("scenarios", "records:split-pdu", 5);
     rep.require("scenarios", "session:nla", 10);
     rep.require("scenarios", "transport:tcp", 10);
+    rep.require("scenarios", "early-pdus", 5);
+    rep.require("scenarios", "big-pdus", 5);
 }
